@@ -26,12 +26,20 @@ use swc_ecma_ast::{
     TsFnType, TsGetterSignature, TsImportType, TsIndexSignature, TsIndexedAccessType, TsInferType,
     TsInterfaceDecl, TsIntersectionType, TsKeywordType, TsKeywordTypeKind, TsLit, TsLitType,
     TsMappedType, TsMethodSignature, TsOptionalType, TsParenthesizedType, TsPropertySignature,
-    TsQualifiedName, TsRestType, TsSetterSignature, TsThisType, TsTplLitType, TsTupleType, TsType,
+    TsQualifiedName, TsRestType, TsSetterSignature, TsThisType, TplElement, TsTplLitType, TsTupleType, TsType,
     TsTypeAliasDecl, TsTypeElement, TsTypeLit, TsTypeOperator, TsTypeOperatorOp,
     TsTypeParamInstantiation, TsTypePredicate, TsTypeQuery, TsTypeQueryExpr, TsTypeRef,
     TsUnionOrIntersectionType, TsUnionType,
 };
 type Res<T> = Result<T, Box<DiagnosticInformation>>;
+
+// the text a template chunk stands for (escape sequences resolved), not its source spelling
+fn tpl_element_text(it: &TplElement) -> String {
+    match &it.cooked {
+        Some(cooked) => cooked.to_string_lossy().into_owned(),
+        None => it.raw.to_string(),
+    }
+}
 
 fn clean_jsdoc_comment(text: &str) -> Option<String> {
     let text = text.trim_start();
@@ -2276,7 +2284,7 @@ impl<'a, R: FileManager> FrontendCtx<'a, R> {
                         return Ok(Runtype::single_string_const(
                             &s.quasis
                                 .iter()
-                                .map(|it| it.raw.to_string())
+                                .map(tpl_element_text)
                                 .collect::<String>(),
                         ));
                     }
@@ -2284,7 +2292,7 @@ impl<'a, R: FileManager> FrontendCtx<'a, R> {
 
                     for (idx, it) in s.exprs.iter().enumerate() {
                         if let Some(quasi) = s.quasis.get(idx) {
-                            acc.push(TplLitTypeItem::StringConst(quasi.raw.to_string()));
+                            acc.push(TplLitTypeItem::StringConst(tpl_element_text(quasi)));
                         }
                         let ty = match it.as_ref() {
                             Expr::Call(_) => Ok(Runtype::string()),
@@ -2294,7 +2302,7 @@ impl<'a, R: FileManager> FrontendCtx<'a, R> {
                         acc.push(res);
                     }
                     if let Some(quasi) = s.quasis.get(s.exprs.len()) {
-                        acc.push(TplLitTypeItem::StringConst(quasi.raw.to_string()));
+                        acc.push(TplLitTypeItem::StringConst(tpl_element_text(quasi)));
                     }
 
                     Ok(Runtype::tpl_lit_type(TplLitType(acc)))
@@ -3023,7 +3031,7 @@ impl<'a, R: FileManager> FrontendCtx<'a, R> {
             if selecting_quasis {
                 let quasis = &it.quasis[quasis_idx];
                 quasis_idx += 1;
-                acc.push(TplLitTypeItem::StringConst(quasis.raw.to_string()));
+                acc.push(TplLitTypeItem::StringConst(tpl_element_text(quasis)));
                 selecting_quasis = false;
             } else {
                 let type_ = &it.types[types_idx];
@@ -3050,7 +3058,7 @@ impl<'a, R: FileManager> FrontendCtx<'a, R> {
             Ok(Runtype::single_string_const(
                 &it.quasis
                     .iter()
-                    .map(|it| it.raw.to_string())
+                    .map(tpl_element_text)
                     .collect::<String>(),
             ))
         }
